@@ -25,8 +25,8 @@ def upd(cid, func, labels, reach, quick, thorough, keep=False):
     json.dump(c,open(V+cid+'.json','w'),indent=1)
 q=[{"scenario":3},{"scenario":1},{"scenario":4},{"scenario":5},{"scenario":3,"intents":2}]
 t=[{"scenario":0},{"scenario":1},{"scenario":2},{"scenario":4},{"scenario":5},{"scenario":1,"intents":2},{"scenario":0,"intents":2}]
-upd('C01','VerifPipelineStep',["C01","C02","valid-request"],["state-built","step-done"],q,t)
-upd('C02','VerifPipelineStep',["C02","valid-request"],["state-built","step-done"],q,t)
+upd('C01','VerifPipelineStep',["C01","C02","valid-request"],["state-built","step-done"],q,t,keep=True)
+upd('C02','VerifPipelineStep',["C02","valid-request"],["state-built","step-done"],q,t,keep=True)
 upd('C05','VerifCancelRestores',["C05","valid-request"],["state-built","ended"],[{"scenario":3},{"scenario":1},{"scenario":4}],[{"scenario":0},{"scenario":1},{"scenario":2},{"scenario":4},{"scenario":5}],keep=True)
-upd('C09','VerifReapplyNoop',["C09","valid-request"],["state-built","step-done"],[{"scenario":1},{"scenario":3},{"scenario":4}],[{"scenario":0},{"scenario":1},{"scenario":2},{"scenario":4},{"scenario":5}])
+upd('C09','VerifReapplyNoop',["C09","valid-request"],["state-built","step-done"],[{"scenario":1},{"scenario":3},{"scenario":4}],[{"scenario":0},{"scenario":1},{"scenario":2},{"scenario":4},{"scenario":5}],keep=True)
 print("ok")
